@@ -254,7 +254,7 @@ def check_C14(tier, seed):
                      'C++ objects are keyed by default construction + set_key(full length); an object whose first packet under '
                      'an explicit 16-byte nonce is already wrong is not judged here (that is C17 matter)']
     n = 150000 if tier == 'quick' else 1500000
-    cfgs = [('asm', (4, 2, 4)), ('c32', (4, 2, 4)), ('gen', (4, 2, 4))] if tier == 'quick' else [('asm', (4, 2, 4)), ('c64', (4, 2, 4)), ('c32', (4, 2, 4)), ('dxor', (4, 2, 4)), ('gen', (4, 2, 4))]
+    cfgs = [('asm', (4, 2, 4)), ('c64', (4, 2, 4)), ('c32', (4, 2, 4)), ('dxor', (4, 2, 4)), ('gen', (4, 2, 4))]
     for i, (be, sh) in enumerate(cfgs):
         exe = world_exe('channel', be, sh, 'rel')
         o.add(D.run_batch(exe, n if i == 0 else n // 5, tier, seed, label='channel@%s-%d%d%d' % (be, *sh), crash_prop='C12'))
@@ -443,7 +443,7 @@ def check_C16(tier, seed):
                      'races are decided at the granularity of clang -O1 loads/stores of the C sources (a race is a source-level property), not of the shipped -O3 binary',
                      'stack accesses are private to their thread; TLS blocks are outside the executable\'s static storage, so a legitimate __thread variable does not alarm']
     n = 20000 if tier == 'quick' else 1000000
-    cfgs = [('c64', (4, 2, 4), n), ('asm', (4, 2, 4), n // 4), ('c32', (3, 3, 3), n // 5), ('dxor', (4, 4, 4), n // 8)] if tier == 'quick' else \
+    cfgs = [('c64', (4, 2, 4), n), ('asm', (4, 2, 4), n // 4), ('c32', (3, 3, 3), n // 5), ('dxor', (4, 4, 4), n // 8), ('gen', (2, 1, 2), n // 8)] if tier == 'quick' else \
            [('c64', (4, 2, 4), n), ('asm', (4, 2, 4), n // 4), ('c32', (3, 3, 3), n // 4), ('dxor', (4, 4, 4), n // 8), ('gen', (2, 1, 2), n // 8)]
     for be, sh, k in cfgs:
         exe = world_exe('threads', be, sh, 'trace')
